@@ -409,6 +409,11 @@ fn main() {
         if id < fixed.len() {
             let (k, n, rows, objs) = &fixed[id];
             emit(&mut out, id, k, *n, rows, objs);
+        } else if cr.chance(1, 25) {
+            // the zero-dimensional space: every row is 0 <= b; the set is the single point () or empty
+            let k = 1 + cr.below(3);
+            let rows: Vec<Row> = (0..k).map(|_| (vec![], [1.0, 0.0, -0.0, -1.0, 0.5, -0.5][cr.below(6)])).collect();
+            emit(&mut out, id, "zerodim", 0, &rows, &[("zero".to_string(), vec![])]);
         } else {
             let s = gen_sys(&mut cr, 14);
             let objs = gen_objectives(&mut cr, &s);
